@@ -258,7 +258,15 @@ class spec_class:
                         else:
                             del spec_cls.__new__
 
-                return spec_cls.__new__(cls, *args, **kwargs)
+                if orig_new:
+                    return spec_cls.__new__(cls, *args, **kwargs)
+                # This call came in through `cls`: carry on along *its* MRO
+                # (behind this class there may be classes that the MRO of
+                # `spec_cls` itself does not contain).
+                next_new = super(spec_cls, cls).__new__
+                if next_new is object.__new__:
+                    return object.__new__(cls)
+                return next_new(cls, *args, **kwargs)
 
             __new__.__spec_classes_new_wrapper__ = True
 
